@@ -164,7 +164,7 @@ REGISTRY = {
         "assumptions": [EXTERNAL, "graph compaction, bounded DFS and greedy de-duplication are not modelled: completeness/exactness for planted families is decided by oracle runs, not by theorem"],
     },
     "C18": {
-        "level": "exploration", "modules": ["SkaModel.Props.C18"], "gen": ["C18"], "cli": [cli.c18_cli],
+        "level": "exploration", "modules": ["SkaModel.Props.C18", "SkaModel.Props.C18Derep"], "gen": ["C18"], "cli": [cli.c18_cli],
         "rule": "insert extraction inputs vs the model; CLI: planted isolated indels (length 1-10, >= 4k apart, (k-1)-mers unique per sample), k in {11,15,21,31}, 3-8 samples, threads 1-4; every VCF record checked by substring search (carriers of REF/ALT exactly the genotyped samples, one planted indel each, none twice), recall measured; non-trivial = families that ran",
         "trusted_base": COMMON_TRUST + ["hooked private helper (feature verif-hooks): extract_middle_bases"],
         "assumptions": [EXTERNAL, "the traversal that finds indel bubbles is not modelled: reality of calls and recall are decided by oracle runs, not by theorem"],
